@@ -254,13 +254,18 @@ pub fn dfa_of_hir(h: &Hir) -> Result<RefDfa, String> {
             return Err("reference dfa too large".into());
         }
     }
+    // the pattern matches the empty string (in some context) iff a match of the empty text is reported one step after
+    // the start state, on some byte or on the end of input.  (regex-syntax's minimum_len() is not that: it is None for a
+    // pattern with a class that matches nothing, like `[a-z]*[^\s\S]?`, which does match the empty string.)
+    let after_start: Vec<usize> = tr[0].iter().copied().chain(std::iter::once(eoi[0])).filter(|&t| t != 0).collect();
+    let nullable = after_start.iter().any(|&t| rep.get(t - 1).copied().unwrap_or(false));
     Ok(RefDfa {
         start: 1,
         tr,
         eoi,
         rep,
         look: !h.properties().look_set().is_empty(),
-        nullable: h.properties().minimum_len() == Some(0),
+        nullable,
     })
 }
 
